@@ -11,7 +11,17 @@ for f in mutants/*.patch seeded/*/patch.diff; do
   if ! git -C /repo apply --check "$PWD/$f" 2>/dev/null; then echo "SKIP $f (does not apply)"; continue; fi
   git -C /repo apply "$PWD/$f"
   out=$(./check $prop --tier quick ${MUT_ARGS:-} 2>&1); code=$?
+  # replay the first reported violation in a fresh process while the change is still applied:
+  # it must fail the same way with an identical trace hash
+  rp=""
+  if [ $code -eq 1 ]; then
+    file=$(echo "$out" | grep -m1 "^VIOLATION" | sed 's/.*replay=//')
+    if [ -n "$file" ] && [ -f "$file" ]; then
+      rout=$(./check $prop --replay "$file" 2>&1); rcode=$?
+      if [ $rcode -eq 1 ] && echo "$rout" | grep -q "identical"; then rp="replay=identical"; else rp="REPLAY-MISMATCH(exit=$rcode)"; fi
+    fi
+  fi
   git -C /repo checkout -- .
   inv=$(echo "$out" | grep -m1 "invariant=" | cut -c1-160)
-  if [ $code -eq 1 ]; then echo "CAUGHT  $f  [$prop] $inv"; else echo "MISSED  $f  [$prop] exit=$code $(echo "$out" | tail -1 | cut -c1-200)"; fi
+  if [ $code -eq 1 ]; then echo "CAUGHT  $f  [$prop] $rp $inv"; else echo "MISSED  $f  [$prop] exit=$code $(echo "$out" | tail -1 | cut -c1-200)"; fi
 done
